@@ -36,6 +36,9 @@ pub enum COp {
     /// flip one bit / substitute / truncate / extend the backing file of value #v (disk layer)
     CorruptFile { v: usize, how: u8, pos: u32 },
     DeleteFile { v: usize },
+    /// write a file at the backing path of value #v whether or not #v was ever put: the bytes of value #w (another
+    /// key's content), garbage, or nothing (an empty file) - a file nobody in the run stored under that key
+    PlantFile { v: usize, w: usize, what: u8 },
     /// validating read of value #v
     Get { v: usize },
     /// validating read twice in a row
@@ -86,13 +89,19 @@ fn build_artifact(kind: &str, aseed: u64, n: u32, root: &std::path::Path) -> Res
     let mut rng = Rng::new(aseed);
     match kind {
         "encoding" => {
-            let mut b = EncodingBuilder::new().with_page_sizes(1, 1);
-            let cnt = (n % 40 + 1) as usize;
+            // page sizes (in KiB) for the two tables, 1-40 entries or - one instance in five - up to 200 (several pages of
+            // each table), one content key in five with two or three encoding keys
+            let (cp, ep) = [(1u16, 1u16), (4, 4), (1, 4), (2, 1)][(n / 7 % 4) as usize];
+            let mut b = EncodingBuilder::new().with_page_sizes(cp, ep);
+            let cnt = if n % 5 == 0 { (n / 5 % 200 + 1) as usize } else { (n % 40 + 1) as usize };
             for i in 0..cnt {
                 let ck = ContentKey::from_bytes(key16(&mut rng));
-                let ek = EncodingKey::from_bytes(key16(&mut rng));
-                b.add_ckey_entry(CKeyEntryData { content_key: ck, file_size: 1000 + i as u64, encoding_keys: vec![ek] });
-                b.add_ekey_entry(EKeyEntryData { encoding_key: ek, espec: if i % 2 == 0 { "z".into() } else { "n".into() }, file_size: 900 + i as u64 });
+                let nek = if rng.chance(1, 5) { rng.range(2, 3) as usize } else { 1 };
+                let eks: Vec<EncodingKey> = (0..nek).map(|_| EncodingKey::from_bytes(key16(&mut rng))).collect();
+                b.add_ckey_entry(CKeyEntryData { content_key: ck, file_size: 1000 + i as u64, encoding_keys: eks.clone() });
+                for (j, ek) in eks.into_iter().enumerate() {
+                    b.add_ekey_entry(EKeyEntryData { encoding_key: ek, espec: if (i + j) % 2 == 0 { "z".into() } else { "n".into() }, file_size: 900 + i as u64 });
+                }
             }
             let file = b.build().map_err(|e| format!("EncodingBuilder::build: {e}"))?;
             let bytes = file.build().map_err(|e| format!("EncodingFile::build: {e}"))?;
@@ -497,7 +506,7 @@ fn corruptions(a: &Artifact, rng: &mut Rng) -> Vec<(String, &'static str, Vec<u8
     } else {
         for r in &a.protected {
             positions.extend(r.start..(r.start + 64).min(r.end));
-            positions.extend(r.end.saturating_sub(64)..r.end);
+            positions.extend(r.end.saturating_sub(64).max(r.start)..r.end);
         }
         let all: Vec<usize> = a.protected.iter().flat_map(|r| r.clone()).collect();
         let start = rng.usize_below(all.len().saturating_sub(4096).max(1));
@@ -604,7 +613,8 @@ impl Scenario for Corrupt {
                     0..=29 => COp::Put { v },
                     30..=34 => COp::PutWrongKey { v, w: (v + 1 + rng.usize_below(nv - 1)) % nv },
                     35..=59 => COp::CorruptFile { v, how: rng.below(6) as u8, pos: rng.next_u64() as u32 },
-                    60..=66 => COp::DeleteFile { v },
+                    60..=63 => COp::DeleteFile { v },
+                    64..=66 => COp::PlantFile { v, w: (v + 1 + rng.usize_below(nv - 1)) % nv, what: rng.below(3) as u8 },
                     67..=89 => COp::Get { v },
                     _ => COp::GetTwice { v },
                 });
@@ -709,7 +719,11 @@ fn corrupt_bytes(b: &[u8], how: u8, pos: u32) -> Vec<u8> {
 async fn run_cache(case: &Case, ctx: &mut Ctx) -> Option<Violation> {
     let dir = ctx.root.join("cache");
     let mut rng = Rng::new(case.aseed);
-    let values: Vec<Vec<u8>> = (0..3).map(|i| super::payload(case.aseed ^ i, *rng.pick(&[1usize, 16, 200, 5000]))).collect();
+    let mut values: Vec<Vec<u8>> = (0..3).map(|i| super::payload(case.aseed ^ i, *rng.pick(&[0usize, 1, 16, 200, 5000]))).collect();
+    // one run in eight: two content keys are the SAME key (identical content put twice under "two" keys)
+    if case.n % 8 == 3 {
+        values[1] = values[0].clone();
+    }
     let keys: Vec<ContentKey> = values.iter().map(|v| ContentKey::from_data(v)).collect();
     let disk_cfg = DiskCacheConfig::new(dir.clone()).with_subdirectories(false, 1);
 
@@ -796,6 +810,21 @@ async fn run_cache(case: &Case, ctx: &mut Ctx) -> Option<Violation> {
                         ctx.fault("corrupt_backing_file");
                         ctx.event(|| json!({"k":"fault","fault":"corrupt_file","value":v,"how":how,"old_len":b.len(),"new_len":nb.len()}));
                     }
+                }
+            }
+            COp::PlantFile { v, w, what } => {
+                let p = file_of(*v);
+                if let Some(d) = p.parent() {
+                    let _ = std::fs::create_dir_all(d);
+                }
+                let bytes: Vec<u8> = match what % 3 {
+                    0 => values[*w % values.len()].clone(),
+                    1 => super::payload(case.aseed ^ 0xBAD, 77),
+                    _ => Vec::new(),
+                };
+                if std::fs::write(&p, &bytes).is_ok() {
+                    ctx.fault("plant_foreign_file");
+                    ctx.event(|| json!({"k":"fault","fault":"plant_file","value":v,"bytes_of":w,"what":what,"len":bytes.len()}));
                 }
             }
             COp::DeleteFile { v } => {
